@@ -664,8 +664,7 @@ Proof.
       * inversion E; subst. rewrite (H1 p x u s Ec Hp Hux). reflexivity.
       * pose proof (insert_view_other c p x u) as Hv.
         destruct (N.eq_dec u p) as [Eup|Nup].
-        -- subst p. exfalso. apply Hp. destruct (tfind_some _ _ _ (eq_trans (eq_sym (tfind_unfold u n (c :: r))) (f_equal (fun z => z) eq_refl))) as [_ _] || idtac.
-           clear -E Hp IHr H2. destruct (tfind_some _ _ _ (ltac:(exact E) : tfind_list u r = Some s) ) || idtac.
+        -- subst p. exfalso. apply Hp.
            (* the found subtree is rooted at u *)
            assert (Hr : root_uid s = u).
            { clear -E. induction r as [|d ds IHd]; simpl in E; [discriminate|]. destruct (tfind u d) eqn:Ed; [inversion E; subst; apply (tfind_some _ _ _ Ed) | apply IHd; exact E]. }
